@@ -96,8 +96,24 @@ def run_case(case) -> list:
             for stage, part in ((0, prog["body"][:k]), (1, prog["body"][k:])):
                 with q:
                     body({"conds": prog["conds"], "tag": prog["tag"] if stage == add_stage else None, "body": part})
+                if stage == 0:
+                    for _ in range(case.get("mid_evals", 0)):      # the query is evaluated before the second block is written
+                        keep.extend(q.evaluate())
         for _ in range(case.get("evals", 1) - 1):      # experiments only: evaluate the same query object several times
             keep.extend(q.evaluate())
+        if case.get("abandon") is not None:            # experiments only (C03): an iterator advanced k steps, then abandoned
+            it = iter(q.evaluate())
+            for _ in range(case["abandon"]):
+                try:
+                    keep.append(next(it))
+                except StopIteration:
+                    break
+            if case.get("abandon_keep"):
+                keep.append(it)                        # abandoned but still referenced
+            else:
+                del it
+                import gc
+                gc.collect()
         out, again, seen = [], [], set()
         for v in q.evaluate():
             row = [TAG_OF.get(type(v), -1), index.get(id(v.p), -1)]
@@ -166,6 +182,9 @@ def snippet(case) -> str:
         for stage, part in ((0, prog["body"][:k]), (1, prog["body"][k:])):
             lines.append("with q:")
             body({"conds": prog["conds"], "tag": prog["tag"] if stage == add_stage else None, "body": part}, 1)
+            if stage == 0:
+                for _ in range(case.get("mid_evals", 0)):
+                    lines.append("list(q.evaluate())        # the query is evaluated before the second block is written")
     lines.append("print(sorted((type(v).__name__, xs.index(v.p)) for v in q.evaluate()))")
     return "\n".join(lines)
 
@@ -818,9 +837,10 @@ def run(tier: str, seed: int, replay=None) -> int:
             cases.append(replay["case"])
             origin.append("replay")
     else:
+        stale_open = {f.witness for f in findings if f.kind == "open" and f.cls == "K_stale_parent"}
         for p in sorted(corpus_dir.glob("*.json")):
-            if p.name.startswith("_"):
-                continue
+            if p.name.startswith("_") or f"corpus/{PROP}/{p.name}" in stale_open:
+                continue          # (the witness of the open finding C08-j is replayed with its own narrow match below)
             d = json.loads(p.read_text())
             if d["case"].get("two"):
                 cases2.append(d["case"])
@@ -842,8 +862,12 @@ def run(tier: str, seed: int, replay=None) -> int:
                 n_next2 += 1
         rng = core.Rng(seed).fork(8)
         n_random = 1500 if tier == "quick" else 24000
+        rng5 = core.Rng(seed).fork(30)
         for _ in range(n_random):
-            cases.append(gen_case(rng, good, 6))
+            c1 = gen_case(rng, good, 6)
+            if c1.get("stages") and "K_stale_parent" not in open_classes and rng5.chance(0.5):
+                c1["mid_evals"] = 1      # the query is evaluated between the two with-blocks (C08-j, once repaired)
+            cases.append(c1)
             origin.append("random")
         if tier == "thorough":
             rng2 = core.Rng(seed).fork(88)
@@ -1016,6 +1040,19 @@ def run(tier: str, seed: int, replay=None) -> int:
             rep.oblige(f"finding:{f.fid}", False, f"cannot replay {f.witness}: {e}")
             continue
         fails = not spec_matches(impl, s)
+        if f.kind == "open" and f.cls == "K_stale_parent":
+            # the construction model has no evaluation history: the narrow match is differential -- the same program
+            # without the evaluation between the two with-blocks agrees with the Spec, and the output is the recorded one
+            plain = {k0: v0 for k0, v0 in d["case"].items() if k0 != "mid_evals"}
+            (impl0, _m0, s0, _fr0), = evaluate([plain], model_ok)
+            if fails and spec_matches(impl0, s0) and impl == d.get("impl", impl):
+                rep.known(f)
+            elif fails:
+                rep.violation({"kind": "counterexample", "case": d["case"], "impl": impl, "spec": sorted(s),
+                               "why": f"witness of {f.fid} fails differently from what was recorded", "python": snippet(d["case"])})
+            else:
+                rep.note(f"known finding {f.fid} no longer reproduces on its witness")
+            continue
         if f.kind == "open":
             if fails and (not model_ok or model_matches(impl, m)) and impl == d.get("impl", impl):
                 rep.known(f)
